@@ -72,6 +72,9 @@ type KnownFinding struct {
 	Desc     string `json:"desc"`
 	Status   string `json:"status"` // "known" | "fixed"
 	Commit   string `json:"commit,omitempty"`
+	// Also lists further properties whose checks run the same entry (the
+	// harness entry is shared), so the same input is the same finding there.
+	Also []string `json:"also,omitempty"`
 }
 
 var (
@@ -680,7 +683,11 @@ func loadKnown() []KnownFinding {
 func matchKnown(known []KnownFinding, prop, entry string, v interp.Violation) *KnownFinding {
 	for i := range known {
 		k := &known[i]
-		if k.Property != prop || k.Status == "fixed" {
+		applies := k.Property == prop
+		for _, p := range k.Also {
+			applies = applies || p == prop
+		}
+		if !applies || k.Status == "fixed" {
 			continue
 		}
 		if k.Entry != "" && k.Entry != entry {
